@@ -41,7 +41,8 @@ end
 
 /-- the single-repair variants of a configuration (only flags that are off) -/
 def repairs (fx : Fix) : List (String × Fix) :=
-  [("memo-ignores-attrs", { fx with memoFull := true }), ("any-entry-skips-attrs", { fx with anyAttrs := true }),
+  [("memo-ignores-attrs", { fx with memoFull := true }), ("any-entry-skips-predicate", { fx with anyAttrs := true }),
+   ("any-entry-skips-indirect", { fx with anyInd := true }),
    ("stale-disjunct-index", { fx with staleIdx := true }), ("stale-error-on-skip", { fx with staleErr := true }),
    ("undefined-ref-required", { fx with undefRef := true }), ("compound-pred-ignored", { fx with compoundPred := true }),
    ("named-disjunct", { fx with namedDisj := true }),
